@@ -511,7 +511,7 @@ func (c *converter) Input(prompt string, valueUsed bool) (string, error) {
 	if len(prompt) > 0 {
 		prompt = fmt.Sprintf(" -p \"%s\"", prompt)
 	}
-	c.addLine(fmt.Sprintf("read%s %s", prompt, c.varName(helper, false)))
+	c.addLine(fmt.Sprintf("IFS= read -r%s %s", prompt, c.varName(helper, false))) // Keep backslashes and surrounding blanks.
 	return c.VarEvaluation(helper, valueUsed, false)
 }
 
